@@ -338,6 +338,8 @@ def occupancy_list(draw, first, n, intervals=False):
         else:
             out.append({"t": t, "shape": draw(region())})
             t += 1
+    if len(out) > 1 and draw(st.integers(0, 2)) == 0:
+        out = list(draw(st.permutations(out)))     # the list need not be in ascending time order
     return out
 
 
@@ -407,7 +409,7 @@ def build_obstacle(r):
         pred = TrajectoryPrediction(Trajectory(states[0].time_step, states), shape)
     elif r["pred"] is not None:
         occ = r["pred"]["occ"]
-        first = occ[0]["t"] if not isinstance(occ[0]["t"], dict) else occ[0]["t"]["iv"][0]
+        first = min(o["t"] if not isinstance(o["t"], dict) else o["t"]["iv"][0] for o in occ)
         pred = SetBasedPrediction(first, build_occupancies(occ))
     return DynamicObstacle(r["id"], ObstacleType[r["type"]], shape, init, pred, initial_signal_state=sig,
                            signal_series=series)
